@@ -77,6 +77,10 @@ impl H {
         let ws: Vec<&str> = line.split_whitespace().collect();
         match ws.as_slice() {
             ["reset"] => {
+                // every history gets its own clock base: offsets are relative to it, and a history takes microseconds,
+                // so a timestamp a few seconds in the future stays in the future however long the whole run takes
+                // (with one base for the whole run the thorough tier, > 2 s, saw `+2 s` quotes turn into past ones)
+                self.base = SystemTime::now();
                 self.epoch += 1;
                 self.delivered.clear();
                 self.history.clear();
